@@ -548,9 +548,12 @@ def _type_based_yield(
     *,
     seen_paths: set[str],
 ) -> Iterator[Breakage]:
-    if old_member.path in seen_paths:
+    # Remember pairs of compared objects, not just the old one: an object can be compared both to what a re-export
+    # of it now points to, and to what now lives at its own path.
+    seen_pair = f"{old_member.path} -> {new_member.path}"
+    if seen_pair in seen_paths:
         return
-    seen_paths.add(old_member.path)
+    seen_paths.add(seen_pair)
     if old_member.is_alias or new_member.is_alias:
         # Should be first, since there can be the case where there is an alias and another kind of object,
         # which may not be a breaking change.
